@@ -78,6 +78,19 @@ const (
 	c11Ack40_0
 	c11Ack1_0
 	c11Ack0_1
+	// datagrams reported to the controller as NOT ack-eliciting (part ack-only). quic-go's
+	// sentPacketHandler.SentPacket calls OnPacketSent for EVERY 1-RTT packet and passes isAckEliciting
+	// as the last argument: an ACK-only packet written in send mode SendAny (CanSend && HasPacingBudget
+	// held) is a datagram released by pacing like any other - only its flag is false and it does not
+	// count into the bytes in flight. The "-mixed" actions alternate such datagrams with ordinary ones
+	// (first not ack-eliciting, second ack-eliciting, ...), which is what a connection that both
+	// receives and sends produces. The rate bound counts every byte released, whatever the flag.
+	// Added after the independently seeded change C11-9 (OnPacketSent returned early for packets
+	// reported as not retransmittable, so they were released without being charged to the pacer).
+	c11SendNA   // one not-ack-eliciting datagram if CanSend && HasPacingBudget(now)
+	c11BurstMix // burst16 with alternating flags
+	c11DrainMix // drain with alternating flags
+	c11PaceMix  // pace16 with alternating flags
 	c11NActions
 )
 
@@ -85,6 +98,7 @@ var c11ActionNames = [c11NActions]string{
 	"send1", "burst16", "drain", "pace16", "sleep", "sleep+1ns", "idle1s", "idle10s", "nextsec",
 	"ack(49,0)", "ack(50,0)", "ack(40,10)", "ack(39,11)", "ack(10,40)", "ack(0,50)", "probe", "mtu+172",
 	"ack(10,10)", "ack(10,30)", "ack(20,0)", "ack(40,0)", "ack(1,0)", "ack(0,1)",
+	"send1-ackonly", "burst16-mixed", "drain-mixed", "pace16-mixed",
 }
 
 var c11Batches = [c11NActions][2]int{
@@ -117,6 +131,12 @@ var (
 	// the recomputation of the factor)
 	c11AlphaSmall = []c11Action{c11Send1, c11Burst, c11Sleep, c11Idle1, c11Idle10, c11NextSec,
 		c11Ack10_10, c11Ack10_30, c11Ack20_0, c11Ack40_0, c11Ack1_0, c11Ack0_1}
+	// sends whose isRetransmittable flag is false, alone and mixed with ordinary sends, in every order
+	// with paced sends, sleeps, an idle gap and two batches (the factor changes the pacing rate).
+	// (added after the independently seeded change C11-9: packets reported as not retransmittable
+	// were no longer charged to the pacer's token bucket)
+	c11AlphaAckOnly = []c11Action{c11Send1, c11SendNA, c11BurstMix, c11DrainMix, c11PaceMix, c11Sleep, c11Idle1,
+		c11Ack50_0, c11Ack40_10}
 )
 
 // ---------------------------------------------------------------------------------------------
@@ -267,10 +287,14 @@ func (s *c11Sim) allowed() bool {
 	return s.bs.CanSend(s.inflight) && s.bs.HasPacingBudget(s.mt())
 }
 
-func (s *c11Sim) sendOne() {
-	s.inflight += s.size
+// sendOne releases one datagram. elicit is quic-go's isAckEliciting, passed on as OnPacketSent's
+// isRetransmittable; only ack-eliciting packets count into the bytes in flight (SentPacket).
+func (s *c11Sim) sendOne(elicit bool) {
+	if elicit {
+		s.inflight += s.size
+	}
 	s.pn++
-	s.bs.OnPacketSent(s.mt(), s.inflight, s.pn, s.size, true)
+	s.bs.OnPacketSent(s.mt(), s.inflight, s.pn, s.size, elicit)
 	s.packets++
 	s.hasSent, s.lastSend = true, s.now
 	if n := len(s.grpT); n > 0 && s.grpT[n-1] == s.now {
@@ -427,16 +451,19 @@ func (s *c11Sim) step1(a c11Action) (eff, disabled bool, v *c11Viol) {
 		s.bs.SetMaxDatagramSize(ns)
 		s.setSize(ns)
 		return true, false, s.checkState()
-	case c11Send1, c11Burst, c11Drain:
+	case c11Send1, c11Burst, c11Drain, c11SendNA, c11BurstMix, c11DrainMix:
 		limit := 1
-		if a == c11Burst {
+		if a == c11Burst || a == c11BurstMix {
 			limit = c11BurstCap
-		} else if a == c11Drain {
+		} else if a == c11Drain || a == c11DrainMix {
 			limit = c11DrainCap
 		}
+		// flags: ordinary actions all ack-eliciting; the C11-9 actions start with a datagram that
+		// is not, and alternate
+		mixed := a == c11SendNA || a == c11BurstMix || a == c11DrainMix
 		n := 0
 		for n < limit && s.allowed() {
-			s.sendOne()
+			s.sendOne(!mixed || n%2 == 1)
 			n++
 			if n < limit { // intermediate state of a burst: the loop may stop here
 				if v = s.checkState(); v != nil {
@@ -447,7 +474,7 @@ func (s *c11Sim) step1(a c11Action) (eff, disabled bool, v *c11Viol) {
 		if n == 0 {
 			return false, false, s.checkState()
 		}
-		if a == c11Drain && n == c11DrainCap {
+		if (a == c11Drain || a == c11DrainMix) && n == c11DrainCap {
 			return true, false, &c11Viol{"rate-exceeded", fmt.Sprintf("%d datagrams released at one instant and still allowed", n)}
 		}
 		if v = s.checkRate(); v != nil {
@@ -463,7 +490,7 @@ func (s *c11Sim) step1(a c11Action) (eff, disabled bool, v *c11Viol) {
 		s.packets++
 		s.hasSent, s.lastSend = true, s.now
 		return true, false, s.checkState()
-	case c11Pace:
+	case c11Pace, c11PaceMix:
 		for i := 0; i < c11PaceN; i++ {
 			if t := int64(s.bs.TimeUntilSend(s.inflight)); t > s.now {
 				if !s.gapOK(t) {
@@ -475,7 +502,7 @@ func (s *c11Sim) step1(a c11Action) (eff, disabled bool, v *c11Viol) {
 			if !s.allowed() { // window-limited (pacing-limited here is clause 4, reported by checkState)
 				break
 			}
-			s.sendOne()
+			s.sendOne(a == c11Pace || i%2 == 1)
 			eff = true
 			if v = s.checkRate(); v != nil {
 				return true, false, v
@@ -724,6 +751,8 @@ func c11Enumerate(sh *evidence.Shard) {
 		{"probe", c11AlphaProbe, dDrain + 1, false},
 		// added after the independently seeded change C11-8 (see c11AlphaSmall)
 		{"small-batches", c11AlphaSmall, dSmall, false},
+		// added after the independently seeded change C11-9 (see c11AlphaAckOnly)
+		{"ack-only", c11AlphaAckOnly, dDrain, false},
 		{"drain", c11AlphaDrain, dDrain, false},
 		{"seq", c11AlphaSeq, dSeq, false},
 	}
@@ -738,6 +767,9 @@ func c11Enumerate(sh *evidence.Shard) {
 		}
 		if pc.name == "small-batches" {
 			alpha["batch_histories"] = "ack/loss batches of 1..40 samples: the 50-sample threshold is crossed by accumulation over several batches (losses first then ACK-only batches, and every other order), within and across the five-second window; the factor is compared with the reference after every batch"
+		}
+		if pc.name == "ack-only" {
+			alpha["is_retransmittable"] = "OnPacketSent's last argument (quic-go: isAckEliciting) is false for send1-ackonly and for every other datagram (the first, third, ...) of burst16-mixed / drain-mixed / pace16-mixed, true elsewhere; a datagram with the flag false is released under the same condition (CanSend&&HasPacingBudget), does not count into the bytes in flight, and counts in full in the rate bound"
 		}
 		p.Alphabet = alpha
 		p.Bounds = map[string]any{"max_sequence_length": pc.depth, "grid_points": len(c11Rates) * len(c11Sizes) * len(c11RTTs) * len(c11Comp),
@@ -802,7 +834,7 @@ func TestVerifC11(t *testing.T) {
 	evidence.Main(t, "C11", evidence.Seq{
 		Run: c11Enumerate,
 		Replay: func(part string, raw json.RawMessage) (bool, bool, string) {
-			if part != "seq" && part != "drain" && part != "probe" && part != "small-batches" {
+			if part != "seq" && part != "drain" && part != "probe" && part != "small-batches" && part != "ack-only" {
 				return false, false, ""
 			}
 			var c c11Case
